@@ -236,14 +236,59 @@ theorem startsWithDoctype_renderToks_other (t : Token) (rest : List Token) (h : 
         exact skipNlBl_cons '&' _ (by decide) (by decide)
     | _ => simp [isData] at hd
 
+/-! ### raw-text elements (`script` / `style`): the list begins with their start tag -/
+
+/-- a start tag with a well-formed name (of a raw-text element or not), whatever follows: `<` and a letter -/
+theorem startsWithDoctype_render_start (n : Str) (a : List Attr) (hn : TagNameOK n) (R : Str) :
+    startsWithDoctype (renderTok (.start n a) ++ R) = false := by
+  obtain ⟨⟨c, cs, rfl, hca⟩, _, _⟩ := hn
+  apply startsWithDoctype_lt _ c (cs ++ renderAttrs a ++ " >".toList ++ R) _ (alpha_not_nlbl c hca)
+  rw [← skipNlBl_cons '<' _ (by decide) (by decide)]
+  simp [renderTok]
+
+/-- a list in the serialiser's image (raw-text elements included) that does not begin with a doctype declaration
+    or an ordinary data run -/
+theorem startsWithDoctype_listOK_other (t : Token) (rest : List Token) (h : ListOK (t :: rest))
+    (hdecl : ∀ d, t ≠ .decl d) (hws : ∀ s, t = .data s → s = ['<'] ∨ s = ['&']) :
+    startsWithDoctype (renderToks (t :: rest)) = false := by
+  cases h with
+  | cons ht hf _ => exact startsWithDoctype_renderToks_other t rest ht hf hdecl hws
+  | raw hr _ _ _ _ =>
+    simp only [renderToks]
+    exact startsWithDoctype_render_start _ _ (rawName_tagNameOK _ hr) _
+  | rawEmpty hr _ _ =>
+    simp only [renderToks]
+    exact startsWithDoctype_render_start _ _ (rawName_tagNameOK _ hr) _
+
+/-- a non-empty list in the serialiser's image does not render to the empty text -/
+theorem renderToks_ne_nil_of_listOK (t : Token) (rest : List Token) (h : ListOK (t :: rest)) :
+    renderToks (t :: rest) ≠ [] := by
+  cases h with
+  | cons ht _ _ =>
+    intro e
+    have := renderTok_ne_nil t ht
+    simp [renderToks] at e
+    exact this e.1
+  | raw _ _ _ _ _ => simp [renderToks, renderTok]
+  | rawEmpty _ _ _ => simp [renderToks, renderTok]
+
 /-- **`DOCTYPE_MATCH` on the rendering = `leadDoctype` on the tokens.**  For every token list in the
-    serialiser's image the character-level match finds exactly the rendering of the token-level prefix. -/
+    serialiser's image (raw-text elements included) the character-level match finds exactly the rendering of
+    the token-level prefix. -/
 theorem doctypePrefix_renderToks (ts : List Token) (h : ListOK ts) :
     doctypePrefix (renderToks ts) = (leadDoctype ts).map (fun pr => (renderToks pr.1, renderToks pr.2)) := by
-  cases ts with
+  cases h with
   | nil => rfl
-  | cons t rest =>
-    obtain ⟨ht, hf, hrest⟩ := h
+  | raw hr ha hne hok hts =>
+    -- the list begins with `<script …` / `<style …`: no doctype on either side
+    rw [leadDoctype_other _ _ rfl (by simp)]
+    exact doctypePrefix_none_of_not _
+      (startsWithDoctype_listOK_other _ _ (.raw hr ha hne hok hts) (by simp) (by simp))
+  | rawEmpty hr ha hts =>
+    rw [leadDoctype_other _ _ rfl (by simp)]
+    exact doctypePrefix_none_of_not _
+      (startsWithDoctype_listOK_other _ _ (.rawEmpty hr ha hts) (by simp) (by simp))
+  | @cons t rest ht hf hrest =>
     cases t with
     | decl d =>
       obtain ⟨hd, hgt⟩ := ht
@@ -280,21 +325,18 @@ theorem doctypePrefix_renderToks (ts : List Token) (h : ListOK ts) :
             apply startsWithDoctype_nil_skip
             simpa [renderToks, renderTok] using skipNlBl_all nl bl hnl hbl
           | cons t2 rest2 =>
-            obtain ⟨ht2, hf2, _⟩ := hrest
             by_cases hdecl : ∃ d, t2 = .decl d
             · obtain ⟨d, rfl⟩ := hdecl
-              obtain ⟨hd, hgt⟩ := ht2
+              obtain ⟨hd, hgt⟩ : TokOK (.decl d) := by
+                cases hrest with
+                | cons ht2 _ _ => exact ht2
               have := doctypePrefix_decl nl bl d (renderToks rest2) hnl hbl hd hgt
               simpa [leadDoctype, hws, renderToks, renderTok] using this
             · have hnd : ∀ d, t2 ≠ .decl d := fun d e => hdecl ⟨d, e⟩
               rw [leadDoctype_data_not_decl _ t2 rest2 hnd]
               apply doctypePrefix_none_of_not
               -- the rendering of the rest starts with `<` or `&` …
-              have hne2 : renderToks (t2 :: rest2) ≠ [] := by
-                intro e
-                have := renderTok_ne_nil t2 ht2
-                simp [renderToks] at e
-                exact this e.1
+              have hne2 : renderToks (t2 :: rest2) ≠ [] := renderToks_ne_nil_of_listOK t2 rest2 hrest
               obtain ⟨c, r, hcr, hc⟩ : ∃ c r, renderToks (t2 :: rest2) = c :: r ∧ (c = '<' ∨ c = '&') := by
                 rcases hf with e | ⟨r, e | e⟩
                 · exact absurd e hne2
@@ -305,10 +347,13 @@ theorem doctypePrefix_renderToks (ts : List Token) (h : ListOK ts) :
               have hrender : renderToks (.data (nl ++ bl) :: t2 :: rest2) = nl ++ bl ++ c :: r := by
                 rw [← hcr]; simp [renderToks, renderTok]
               rw [hrender, startsWithDoctype_ws nl bl c r hnl hbl hc1 hc2, ← hcr]
-              -- … so the second token is not an ordinary data run
-              apply startsWithDoctype_renderToks_other t2 rest2 ht2 hf2 hnd
+              -- … so the second token is not an ordinary data run (it may be the start tag of a raw-text element)
+              apply startsWithDoctype_listOK_other t2 rest2 hrest hnd
               intro s2 e
               subst e
+              have ht2 : TokOK (.data s2) := by
+                cases hrest with
+                | cons ht2 _ _ => exact ht2
               rcases ht2 with e | e | ⟨hne, hall2⟩
               · exact Or.inl e
               · exact Or.inr e
